@@ -4,7 +4,7 @@ import itertools
 import random
 import struct
 
-from mc import lib, refcodec
+from mc import lib, refcodec, spec_table
 from mc.canon import short
 
 ID = 'C11'
@@ -13,15 +13,17 @@ RULE = ('E2 state machine + E1: the state is the legacy switch, observed '
         'behaviourally (tags emitted for the probes 40000 and 3000000000); '
         'events support_deprecated_rabbitmq(), (True), (False); BFS over '
         'events with state deduplication plus all 3^4 event sequences '
-        'without deduplication, each transition compared with the 2-state '
-        'model. In each state the full observation: every integer of '
+        'without deduplication (the same frame objects re-encoded after '
+        'every event), each transition compared with the 2-state model. In each state the full observation: every integer of '
         '[-70000, 70000], every n within 2 (thorough 4096) of +-2^7 .. '
         '+-2^64, all +-2^k+-1 for k <= 70 and seeded 64-bit integers, at '
         'four positions (table_integer, top-level value, array element, '
         'table inside an array): emitted bytes equal the reference ladder '
         'for that state, only b s I l tags appear anywhere in legacy output, '
         'the accepted set is exactly [-2^63, 2^63-1], refusals are '
-        'TypeError; fixed-width encoders refuse limit+-1, +-2 with '
+        'TypeError; arrays of every length 0..69, 100, 255, 256, 400 of one / '
+        'two alternating / all ladder integers equal the reference ladder; '
+        'fixed-width encoders refuse limit+-1, +-2 with '
         'TypeError. A case is (state, integer, position) or a transition; '
         'non-trivial = integer outside [-128, 127] or a transition.')
 BOUNDS = {'quick': {'dense_range': '[-70000, 70000]', 'boundary_radius': 2,
@@ -45,6 +47,7 @@ def tasks(tier, seed):
         for b in BOUNDARIES:
             out.append(('bounds', legacy, b))
         out.append(('powers', legacy))
+        out.append(('arrays', legacy))
     return out
 
 
@@ -191,6 +194,58 @@ def observe_int(ctx, legacy, n):
         ctx.outcome('ok')
 
 
+ARRAY_INTS = [5, -5, 300, -300, 40000, 65535, 32768, 100000, -100000,
+              2**31 - 1, -2**31, 3000000000, 2**32 - 1, 2**31, 2**40, -2**40,
+              2**63 - 1, -2**63]
+ARRAY_COUNTS = list(range(0, 70)) + [100, 255, 256, 400]
+
+
+def observe_arrays(ctx, legacy):
+    """Long arrays (every count of a dense range) of one integer, of two
+    alternating integers, and of the whole ladder: the bytes must equal the
+    reference ladder for this switch state."""
+    e = lib.pamqp().encode
+    shapes = []
+    for n in ARRAY_COUNTS:
+        for v in ARRAY_INTS:
+            shapes.append([v] * n)
+        shapes.append([ARRAY_INTS[i % len(ARRAY_INTS)] for i in range(n)])
+        shapes.append([40000 if i % 2 else -7 for i in range(n)])
+        shapes.append([3000000000 if i % 3 else 2**40 for i in range(n)])
+    for arr in shapes:
+        for pos, build in (('array', lambda a: a),
+                           ('array in table in array',
+                            lambda a: [{'k': a}, a])):
+            value = build(arr)
+            ctx.case((legacy, 'arr', pos, len(arr), tuple(arr[:3])), True,
+                     sample=lambda: {'legacy': legacy, 'array_len': len(arr),
+                                     'first': arr[:3], 'position': pos})
+            try:
+                got = e.field_array(value)
+                ctx.calls()
+            except Exception as exc:  # noqa
+                got = repr(exc).encode()
+            ctx.valid()
+            want = refcodec.enc_array(value, legacy)
+            if got != want:
+                ctx.outcome('wrong-type')
+                tags = '?'
+                try:
+                    tags = sorted(set(walk_tags(b'A' + got)) - {b'A', b'F'})
+                except Exception:  # noqa
+                    pass
+                ctx.violation(
+                    'ladder-array|{}|{}|{}|{}'.format(legacy, pos, len(arr),
+                                                      arr[:2]),
+                    'legacy={} {} of {} integers ({}...): bytes differ from '
+                    'the reference ladder (tags emitted: {})'.format(
+                        legacy, pos, len(arr), arr[:3], tags),
+                    {'kind': 'array', 'legacy': legacy},
+                    want.hex()[:200], got.hex()[:200])
+            else:
+                ctx.outcome('ok')
+
+
 def ints_for(task, tier, seed):
     kind = task[0]
     if kind == 'dense':
@@ -245,14 +300,39 @@ def check_toggle(ctx):
                 seen[fp] = mnext
                 frontier.append((hist + (ev,), mnext))
     ctx.count('bfs_states', len(seen))
-    # all event sequences without deduplication
+    # all event sequences without deduplication; the SAME frame objects are
+    # encoded again after every event (an encoding remembered per object
+    # must not survive a toggle)
+    p = lib.pamqp()
+    table = {'k': [40000, 3000000000, -1], 'n': {'m': 65535}}
+    keep_props = p.commands.Basic.Properties(headers=table, app_id='x')
+    keep_header = p.header.ContentHeader(0, 1, keep_props)
+    keep_method = p.commands.Queue.Declare(queue='q', arguments=table)
     for seq in itertools.product(EVENTS, repeat=depth):
         set_switch(False)
         mstate = False
+        p.frame.marshal(keep_header, 1), p.frame.marshal(keep_method, 1)
         for i, ev in enumerate(seq):
             apply_event(ev)
             mstate = model_next(mstate, ev)
             ctx.calls()
+            for label, obj, want in (
+                    ('ContentHeader', keep_header, refcodec.enc_header_frame(
+                        1, {'headers': table, 'app_id': 'x'}, 1, mstate)[0]),
+                    ('Queue.Declare', keep_method, refcodec.enc_method_frame(
+                        spec_table.BY_NAME['Queue.Declare'],
+                        (0, 'q', False, False, False, False, False, table),
+                        1, mstate)[0])):
+                got = p.frame.marshal(obj, 1)
+                if got != want:
+                    ctx.violation(
+                        'toggle|object|{}|{}'.format(label, seq[:i + 1]),
+                        'after {} the same {} object encodes as {} but the '
+                        'ladder for legacy={} gives {}'.format(
+                            list(seq[:i + 1]), label, got.hex()[-60:],
+                            mstate, want.hex()[-60:]),
+                        {'kind': 'toggle', 'seq': list(seq[:i + 1])},
+                        want.hex()[:300], got.hex()[:300])
             fp = fingerprint()
             if fp != MODEL_FP[mstate]:
                 ctx.violation('toggle|seq|{}'.format(seq[:i + 1]),
@@ -347,8 +427,11 @@ def run(task, ctx):
                                   legacy, fingerprint()),
                               {'kind': 'toggle', 'seq': ['(%s)' % legacy]},
                               repr(MODEL_FP[legacy]), repr(fingerprint()))
-            for n in ints_for(task, ctx.tier, ctx.seed):
-                observe_int(ctx, legacy, n)
+            if task[0] == 'arrays':
+                observe_arrays(ctx, legacy)
+            else:
+                for n in ints_for(task, ctx.tier, ctx.seed):
+                    observe_int(ctx, legacy, n)
     finally:
         e.support_deprecated_rabbitmq(False)
 
@@ -361,6 +444,9 @@ def replay(case, ctx):
             observe_int(ctx, case['legacy'], case['n'])
             ctx.violations = [v for v in ctx.violations
                               if v['case'] == case] or ctx.violations
+        elif case['kind'] == 'array':
+            set_switch(case['legacy'])
+            observe_arrays(ctx, case['legacy'])
         elif case['kind'] == 'fixed':
             check_fixed(ctx)
             ctx.violations = [v for v in ctx.violations if v['case'] == case]
